@@ -64,12 +64,20 @@ class Module:
             elif isinstance(ch, (ast.If, ast.For, ast.While, ast.With, ast.Try)):
                 self._index(ch, prefix, cls, parent)
 
-    def text(self, node):
+    def raw_text(self, node):
         return ast.get_source_segment(self.source, node) or ""
 
+    def text(self, node):
+        """canonical text of a node: ast.unparse, so layout, comments, quote style,
+        redundant parentheses and number spelling do not matter"""
+        try:
+            return unparse(node)
+        except Exception:
+            return self.raw_text(node)
+
     def code(self, node):
-        """source text of node with comments and all whitespace removed"""
-        return "".join(strip_comments(self.text(node)).split())
+        """canonical text of node with all whitespace removed"""
+        return "".join(self.text(node).split())
 
 
 class Program:
@@ -191,6 +199,40 @@ def const_str(node):
     if isinstance(node, ast.Constant) and isinstance(node.value, str):
         return node.value
     return None
+
+
+import functools
+
+
+def unparse(node):
+    """ast.unparse; a tuple is written without its outer parentheses (as in a subscript
+    or a for-target), so that the text of a node does not depend on where it stands"""
+    t = ast.unparse(node)
+    if isinstance(node, ast.Tuple) and t.startswith("(") and t.endswith(")"):
+        t = t[1:-1]
+    return t
+
+
+@functools.lru_cache(maxsize=None)
+def canon(src, squeeze=True):
+    """canonical form of an expected source fragment (same normalisation as Module.text /
+    Module.code); fragments that do not parse on their own are only quote-normalised"""
+    if not src.strip():
+        return src
+    try:
+        tree = ast.parse(src.strip())
+        if len(tree.body) == 1 and isinstance(tree.body[0], ast.Expr):
+            t = unparse(tree.body[0].value)
+        else:
+            t = ast.unparse(tree)
+    except SyntaxError:
+        t = src.replace('"', "'")
+    return "".join(t.split()) if squeeze else " ".join(t.split())
+
+
+def key_in(key, text):
+    """is the expected fragment `key` contained in canonical text `text` (layout-insensitive)"""
+    return canon(key) in "".join(text.split())
 
 
 def strip_comments(src):
